@@ -75,26 +75,31 @@ type Ctx struct {
 	// parameters of unexported functions whose signature differs from the reference tree's: their reference names
 	paramRef map[*ssa.Function]map[*ssa.Parameter]string
 	// helpers through which an anchor call was found (call-tree search): their results read as what they return
-	inlineFns    map[*ssa.Function]bool
-	structLits   map[string]map[string]string // struct literals handed to a callee by value: token -> field -> path in the caller's frame
-	ftMemo       map[*types.Named][]*ssa.Function
-	faMemo       map[*ssa.Parameter][]*ssa.Function
-	extraCut     map[edge]bool          // edges excluded for the current top-level guard query (a case split on a φ)
-	mutGlobals   map[*ssa.Global]string // statelessRule: module globals that change after initialisation, with the reason
-	condDepth    int
-	ruleOnly     []string                    // only: the rule prefixes whose obligations are recorded
-	apartDone    map[string]bool             // apart: the shared runs already made in this check, per filter
-	running      map[string]bool             // only: the shared runs in progress
-	fnArgs       map[string]fnArg            // calleeEnvV: functions handed to callees as arguments, by the name they carry in the callee env
-	condEnv      Env                         // canonCond: the frame conditions are rendered in (nil: the function's own)
-	fnSubst      map[ssa.Value]*ssa.Function // guardViaTable: function-valued fields of the current table element
-	mcSubst      map[ssa.Value]*ssa.MakeClosure
-	valSubst     map[ssa.Value]ssa.Value
-	gsMemo       map[*ssa.Global]*ssa.Slice
-	boolOrigins  map[string]boolOrigin          // calleeEnvV: test results handed to callees as boolean arguments, by path
-	nameHandedOn bool                           // calleeEnvV: a call result the callee hands on is named after the caller-side call value
-	phiEdgeLive  func(phi *ssa.Phi, i int) bool // optional: restricts φ edges when rendering canonical forms
-	gmemo        map[string]int
+	inlineFns     map[*ssa.Function]bool
+	structLits    map[string]map[string]string // struct literals handed to a callee by value: token -> field -> path in the caller's frame
+	ftMemo        map[*types.Named][]*ssa.Function
+	faMemo        map[*ssa.Parameter][]*ssa.Function
+	extraCut      map[edge]bool          // edges excluded for the current top-level guard query (a case split on a φ)
+	mutGlobals    map[*ssa.Global]string // statelessRule: module globals that change after initialisation, with the reason
+	condDepth     int
+	ruleOnly      []string                      // only: the rule prefixes whose obligations are recorded
+	apartDone     map[string]bool               // apart: the shared runs already made in this check, per filter
+	inlining      map[*ssa.Call]bool            // inlinedResult: the helper calls being rendered (recursion guard)
+	lockDepth     int                           // lockHeldAt: depth of the walk to the callers of a "…Locked" helper
+	pairFields    map[string]string             // C08: field of getCommitment's result struct -> the commitment it holds
+	lookupAccMemo map[*ssa.Function]*ssa.Lookup // lookupAccessorErr
+	cstDepth      int
+	running       map[string]bool             // only: the shared runs in progress
+	fnArgs        map[string]fnArg            // calleeEnvV: functions handed to callees as arguments, by the name they carry in the callee env
+	condEnv       Env                         // canonCond: the frame conditions are rendered in (nil: the function's own)
+	fnSubst       map[ssa.Value]*ssa.Function // guardViaTable: function-valued fields of the current table element
+	mcSubst       map[ssa.Value]*ssa.MakeClosure
+	valSubst      map[ssa.Value]ssa.Value
+	gsMemo        map[*ssa.Global]*ssa.Slice
+	boolOrigins   map[string]boolOrigin          // calleeEnvV: test results handed to callees as boolean arguments, by path
+	nameHandedOn  bool                           // calleeEnvV: a call result the callee hands on is named after the caller-side call value
+	phiEdgeLive   func(phi *ssa.Phi, i int) bool // optional: restricts φ edges when rendering canonical forms
+	gmemo         map[string]int
 }
 
 func isMockPath(p string) bool {
